@@ -262,7 +262,7 @@ func c24Run(t *testing.T, cj []byte, res *vfResult) {
 func init() {
 	vfRegister(&vfProp{
 		ID: "C24", Level: "exploration", ReplayClass: "decision-exact", // the ice.Agent runs free between gatherer sites: ~1 in 1500 runs diverges
-		Rule:        "case = one real PeerConnection with 1-3 local interfaces (host candidates), candidate pool size 0 or 1, handler registered early or late; CreateOffer+SetLocalDescription run as a task while the real ice.Agent's notifier goroutine is adopted as a task at its first site; the seeded cooperative scheduler picks who runs at every lock/atomic site of icegatherer.go; non-trivial = >=1 preemption, distinct = hash of (emitted sequence, schedule)",
+		Rule:        "case = one real PeerConnection with 0-3 usable local interfaces (host candidates; 0 = a filter hides every interface), candidate pool size 0 or 1, handler registered early or late; CreateOffer+SetLocalDescription run as a task while the real ice.Agent's notifier goroutine is adopted as a task at its first site; the seeded cooperative scheduler picks who runs at every lock/atomic site of icegatherer.go; non-trivial = >=1 preemption, distinct = hash of (emitted sequence, schedule)",
 		Real:        []string{"PeerConnection, ICEGatherer (instrumented)", "pion/ice Agent gathering host candidates (unmodified, free-running between gatherer sites)", "vnet"},
 		Stub:        []string{"network: vnet with static IPs, no remote peer"},
 		Assumptions: []string{"only host/UDP4 candidates are gathered", "the handler is always registered before SetLocalDescription"},
